@@ -657,6 +657,39 @@ impl SpMat {
     //@| assert forall|i: int, j: int| 0 <= i < self.sh@.0 && 0 <= j < self.sh@.1 implies #[trigger] __ret.at(i, q.m@[j] as int) == self.at(i, j) by { assert(id.m@[i] == i); assert(__ret.at(id.m@[i] as int, q.m@[j] as int) == self.at(i, j)); }
 }
 
+// ---------------------------------------------------------------- the row / column cuts of the chain reducer (yui-homology/src/utils/chain_reducer.rs)
+/// sprs::PermOwned, as PermView
+pub struct PermOwned { pub m: Ghost<Seq<usize>> }
+impl PermOwned {
+    pub open spec fn wf(&self, n: int) -> bool { self.m@.len() == n && (forall|i: int| 0 <= i < n ==> (#[trigger] self.m@[i]) < n) && (forall|i: int, j: int| 0 <= i < j < n ==> #[trigger] self.m@[i] != #[trigger] self.m@[j]) }
+    #[verifier::external_body] pub fn at(&self, i: usize) -> (r: usize) requires i < self.m@.len() ensures r == self.m@[i as int] { unimplemented!() }
+}
+/// rows r.. of the row-permuted matrix: row i of a goes to row p(i) - r when p(i) >= r (what ChainReducer cuts out of d_{i-1} after a step at i)
+pub fn reduce_mat_rows(a: &SpMat, p: &PermOwned, r: usize) -> (res: SpMat)
+    requires a.wf(), p.wf(a.sh@.0 as int), r <= a.sh@.0,     // r is the number of pivots (its caller update_mats has r <= p.dim())
+    ensures res.wf(), res.sh@ == ((a.sh@.0 - r) as usize, a.sh@.1),
+        forall|i: int, j: int| 0 <= i < a.sh@.0 && 0 <= j < a.sh@.1 && p.m@[i] >= r ==> #[trigger] res.at(p.m@[i] - r, j) == a.at(i, j),
+//@body fn/reduce_mat_rows for_iter=1 machine=m,n,r,i,j source=yui-homology/src/utils/chain_reducer.rs
+//@+ closure 0 typed
+//@| i: usize, j: usize
+//@+ closure 0
+//@| -> (o: Option<(usize, usize)>) requires i < p.m@.len() ensures o == (if r <= p.m@[i as int] < m { Some(((p.m@[i as int] - r) as usize, j)) } else { None })
+//@+ post
+//@| assert forall|i: int, j: int| 0 <= i < a.sh@.0 && 0 <= j < a.sh@.1 && p.m@[i] >= r implies #[trigger] __ret.at(p.m@[i] - r, j) == a.at(i, j) by {
+//@|     if has(a.es@, i, j) { let t = pos(a.es@, i, j); lemma_val(a.es@, t); assert(a.es@[t].0 == i && a.es@[t].1 == j); }
+//@|     else if has(__ret.es@, p.m@[i] - r, j) { let t = choose|t: int| 0 <= t < a.es@.len() && r <= p.m@[(#[trigger] a.es@[t]).0 as int] < m && p.m@[a.es@[t].0 as int] - r == p.m@[i] - r && a.es@[t].1 == j; assert(a.es@[t].0 == i); assert(has(a.es@, i, j)); }
+//@| }
+/// columns r.. of the column-permuted matrix
+pub fn reduce_mat_cols(a: &SpMat, p: &PermOwned, r: usize) -> (res: SpMat)
+    requires a.wf(), p.wf(a.sh@.1 as int), r <= a.sh@.1,
+    ensures res.wf(), res.sh@ == (a.sh@.0, (a.sh@.1 - r) as usize),
+        forall|i: int, j: int| 0 <= i < a.sh@.0 && 0 <= j < a.sh@.1 && p.m@[j] >= r ==> #[trigger] res.at(i, p.m@[j] - r) == a.at(i, j),
+//@body fn/reduce_mat_cols for_iter=1 machine=m,n,r,i,j source=yui-homology/src/utils/chain_reducer.rs
+//@+ closure 0 typed
+//@| i: usize, j: usize
+//@+ closure 0
+//@| -> (o: Option<(usize, usize)>) requires j < p.m@.len() ensures o == (if r <= p.m@[j as int] < n { Some((i, (p.m@[j as int] - r) as usize)) } else { None })
+
 // ---------------------------------------------------------------- is_id (defect D5, repaired in 1866444)
 /// a stored entry agrees with the identity matrix
 pub open spec fn idok(e: Tv) -> bool { (e.0 == e.1 && e.2 == r1()) || (e.0 != e.1 && e.2 == r0()) }
